@@ -594,12 +594,139 @@ def k3b_find_stale(rep: Any, tier: str = "quick") -> None:
         rep.candidate(key, f"SCC {scc_id}: {m}", m, replay)
 
 
+def k5_indirection(rep: Any, tier: str = "quick") -> None:
+    """indirection.TypeIndirectionVisitor.find_modules is complete for class hierarchies: the modules it
+    returns for an Instance contain the defining module of every class that gives the type its meaning
+    -- every class of the MRO and every class mentioned in the type arguments of the bases of *any*
+    MRO class (they decide map_instance_to_supertype), recursively.  The solver chooses the hierarchy:
+    a chain of 1..3 classes below a generic root, at which level the parametrised base sits, how deeply
+    the argument is nested and in which modules the classes live."""
+    import mypy.indirection as I
+    from mypy.nodes import Block, ClassDef, SymbolTable, TypeInfo
+    from mypy.types import Instance
+
+    K = Kernel("mypy.indirection", ["TypeIndirectionVisitor.visit_instance", "TypeIndirectionVisitor._visit", "TypeIndirectionVisitor._visit_type_tuple", "TypeIndirectionVisitor._visit_type_list", "TypeIndirectionVisitor.find_modules"], closure=False)
+    rep.kernels_from(K)
+
+    class V(I.TypeIndirectionVisitor):
+        visit_instance = K["TypeIndirectionVisitor.visit_instance"]
+        _visit = K["TypeIndirectionVisitor._visit"]
+        _visit_type_tuple = K["TypeIndirectionVisitor._visit_type_tuple"]
+        _visit_type_list = K["TypeIndirectionVisitor._visit_type_list"]
+        find_modules = K["TypeIndirectionVisitor.find_modules"]
+
+    def mk(name: str, module: str, bases: list, obj: Any) -> Any:
+        info = TypeInfo(SymbolTable(), ClassDef(name, Block([])), module)
+        info._fullname = module + "." + name
+        info.bases = bases or [Instance(obj, [])]
+        mro = [info]
+        for b in info.bases:
+            for x in b.type.mro:
+                if x not in mro:
+                    mro.append(x)
+        info.mro = mro
+        return info
+
+    ctx = Ctx(max_paths=500000)
+    found: dict = {}
+    n = {"p": 0}
+    depth_max = 3 if tier == "quick" else 4
+
+    def body(c: Ctx) -> None:
+        obj = TypeInfo(SymbolTable(), ClassDef("object", Block([])), "builtins")
+        obj._fullname = "builtins.object"
+        obj.mro = [obj]
+        obj.bases = []
+        gen = mk("G", "mg", [], obj)  # generic root, e.g. list
+        argc = mk("C", "pb", [], obj)  # the class used as type argument
+        nest = c.choose("argument_nesting", 2)
+        arg: Any = Instance(argc, [])
+        for _ in range(nest):
+            arg = Instance(gen, [arg])
+        depth = 1 + c.choose("chain_length", depth_max)
+        # level 0 derives from G[arg]; the classes above it are plain subclasses, each in its own module
+        chain = [mk("K0", "m0", [Instance(gen, [arg])], obj)]
+        for i in range(1, depth):
+            extra = bool(c.bool(f"K{i}_has_second_plain_base"))
+            bases = [Instance(chain[-1], [])] + ([Instance(mk(f"X{i}", f"x{i}", [], obj), [])] if extra else [])
+            if extra and bool(c.bool(f"K{i}_second_base_first")):
+                bases.reverse()
+            chain.append(mk(f"K{i}", f"m{i}", bases, obj))
+        top = chain[-1]
+        got = V().find_modules([Instance(top, [])])
+        # reference: naive closure over MRO classes and the arguments of all their bases
+        want: set = set()
+        seen: set = set()
+
+        def walk(t: Any) -> None:
+            if id(t) in seen:
+                return
+            seen.add(id(t))
+            for a in t.args:
+                walk(a)
+            for s_ in t.type.mro:
+                want.add(s_.module_name)
+                for b in s_.bases:
+                    for a in b.args:
+                        walk(a)
+
+        walk(Instance(top, []))
+        n["p"] += 1
+        c.stats["assert_queries"] += 1
+        if want <= got:
+            c.stats["discharged"] += 1
+        else:
+            c.stats["refuted"] += 1
+            found.setdefault("find_modules misses a module that gives an Instance its meaning (argument of a generic base of an MRO class)", (sorted(want - got), sorted(got), depth, c.path_model()))
+
+    ctx.explore(body)
+    rep.add_ctx("K5 indirection.find_modules completeness on class hierarchies", ctx, hierarchies=n["p"])
+    rep.twin("K5 reached", n["p"] > 0)
+    for key, (missing, got, depth, m) in found.items():
+        rep.sample({"kernel": "find_modules", "class": key, "missing": missing, "got": got, "chain_length": depth})
+
+        def replay(d: str, m: dict = m, depth: int = depth) -> tuple[bool, str]:
+            # warm vs cold through the real command: m uses F only through Sequence-like supertypes
+            import os
+            import shutil
+            import subprocess
+            import sys
+
+            files = {
+                "base.py": "class Base: ...\n",
+                "pb.py": "from base import Base\nclass C(Base): ...\n",
+                "f.py": "import pb\nclass K0(list[pb.C]): ...\n" + "".join(f"class K{i}(K{i-1}): ...\n" for i in range(1, depth)),
+                "m.py": f"from typing import Sequence\nfrom base import Base\nimport f\ndef use(x: Sequence[Base]) -> None: ...\ndef g(x: f.K{depth - 1}) -> None:\n    use(x)\n",
+            }
+            for fn, text in files.items():
+                with open(os.path.join(d, fn), "w") as fh:
+                    fh.write(text)
+            env = dict(os.environ)
+            env.pop("PYTHONPATH", None)
+
+            def run(cache: str) -> tuple:
+                p = subprocess.run([sys.executable, "-m", "mypy", "--no-error-summary", "--cache-dir", cache, "m.py"], cwd=d, env=env, capture_output=True, text=True, timeout=600)
+                return p.returncode, p.stdout.strip()
+
+            run("cache")
+            with open(os.path.join(d, "pb.py"), "w") as fh:
+                fh.write("from base import Base\nclass C: ...\n")
+            os.utime(os.path.join(d, "pb.py"), (2_000_000_000, 2_000_000_000))
+            warm = run("cache")
+            cold = run(os.devnull)
+            shutil.rmtree(os.path.join(d, "cache"), ignore_errors=True)
+            return warm != cold, f"after pb.C stops deriving from Base: warm {warm}, cold {cold}"
+
+        rep.candidate(key, f"missing modules {missing}; returned {got}", m, replay)
+
+
 def run(rep: Any, tier: str) -> None:
     rep.bounds += [
         "K2: find_cache_meta, JSON layout: version match, --skip-version-check, dependency/priority/line list lengths, option snapshot and platform equality, debug_cache key, plugin snapshots present/equal, plugin config data, meta / meta_ex loadability all symbolic",
         "K3a: has_meta / dependency list equal / suppressed import options equal and every bool option read by is_fresh symbolic",
         "K3b: SCCs {a,b}, {c}, {d}; per-module is_fresh, per-edge dependency-hash currency, per-module transitive-dependency-hash equality, the indirect dependency b->d and the edge c->d that makes it reachable are all symbolic",
         "K3c: every DAG among 3 (quick) / 4 (thorough) SCCs, every sequence of 2 / 3 queries with the negative/positive cache carried over",
+        "K5: generic root G, argument class C (possibly nested in G[...]), a chain of 1..3/4 subclasses each in its own module with optional extra plain bases in either order",
         "K4: dependency lists = subsets of 4 (quick) / 7 (thorough) dotted names, source-module membership and find_module answers symbolic",
     ]
     k2_find_cache_meta(rep)
@@ -607,3 +734,4 @@ def run(rep: Any, tier: str) -> None:
     k3b_find_stale(rep, tier)
     k3c_transitive(rep, tier)
     k4_removed_submodules(rep, tier)
+    k5_indirection(rep, tier)
